@@ -92,6 +92,9 @@ func (e *integEngine) checkC06(x *integExpect) {
 			}
 			if len(got) > 0 {
 				c.Violate("C06", "ran-unexpectedly", "task %s was not expected to run but executed %v", t.Name, got)
+				if e.w.Graph != nil {
+					c.Violate("C02", "ran-unexpectedly-real-runner", "stage task %s must not run (a dependency failed / was cancelled) but executed %v", t.Name, got)
+				}
 			}
 			continue
 		}
@@ -177,6 +180,7 @@ func (e *integEngine) checkC07(x *integExpect) {
 			}
 			if (d.Err != nil) != wantErr {
 				c.Violate("C07", "schedule-error", "Schedule returned %s, model error=%v", errString(d.Err), wantErr)
+				c.Violate("C02", "schedule-error-real-runner", "Schedule returned %s, model error=%v (real TaskRunner)", errString(d.Err), wantErr)
 			}
 		}
 	}
@@ -194,6 +198,7 @@ func (e *integEngine) checkC07(x *integExpect) {
 			got := statusName(e.stages[n].ReadStatus())
 			if got != want {
 				c.Violate("C07", "stage-status", "stage %s: status %s, model %s", n, got, want)
+				c.Violate("C02", "stage-status-real-runner", "stage %s: status %s, model %s (real TaskRunner, world %s)", n, got, want, e.w.Graph.String())
 			}
 		}
 	}
@@ -329,4 +334,54 @@ func (e *integEngine) resultTask(name string) *task.Task {
 		}
 	}
 	return e.tasks[name]
+}
+
+// checkC01Integ: with the real runner, no command of a stage may start before every command of
+// every stage it depends on has ended (and that stage's task has run to the point the model says).
+func (e *integEngine) checkC01Integ(x *integExpect) {
+	c := e.c
+	if e.w.Graph == nil {
+		return
+	}
+	var walk func(g *GraphSpec)
+	walk = func(g *GraphSpec) {
+		for _, s := range g.Stages {
+			if s.Nested != nil {
+				walk(s.Nested)
+				continue
+			}
+			mine := e.execsOf(e.stageTask(s))
+			if len(mine) == 0 {
+				continue
+			}
+			first := mine[0].StartSeq
+			for _, dn := range s.Deps {
+				d := g.Stage(dn)
+				if d.Nested != nil || d.Cond == "false" {
+					continue
+				}
+				dex := e.execsOf(e.stageTask(d))
+				want := x.task[e.stageTask(d)]
+				if len(dex) == 0 {
+					c.Violate("C01", "start-before-dep-real-runner", "stage %s started its first command (seq %d) although its dependency %s has executed nothing", s.Name, first, d.Name)
+					continue
+				}
+				for _, r := range dex {
+					if r.EndSeq < 0 || r.EndSeq > first {
+						c.Violate("C01", "start-before-dep-real-runner", "stage %s started its first command (seq %d) before command %s of its dependency %s had ended (seq %d)", s.Name, first, r.Info.Key, d.Name, r.EndSeq)
+						break
+					}
+				}
+				min := len(want.Seq)
+				if want.OptionalFrom >= 0 {
+					min = want.OptionalFrom
+				}
+				if len(dex) < min {
+					c.Violate("C01", "start-before-dep-real-runner", "stage %s started (seq %d) when its dependency %s had run only %d of its %d commands", s.Name, first, d.Name, len(dex), min)
+				}
+				c.Count("c01i_dependency_edges_checked")
+			}
+		}
+	}
+	walk(e.w.Graph)
 }
